@@ -59,6 +59,9 @@ func loadOracle(path string) (map[string]oracleEntry, error) {
 		if err := json.Unmarshal(sc.Bytes(), &e); err != nil {
 			return nil, err
 		}
+		if !e.OK && e.ErrClass != "parse" && e.ErrClass != "timeout" {
+			e.ErrClass = tlabridge.ClassifyError(e.ErrMsg) // the class is derived from TLC's message
+		}
 		m[e.Expr] = e
 	}
 	return m, sc.Err()
@@ -117,7 +120,11 @@ func evalGo(o *opDef, args []tla.Value) (r goRes) {
 	if len(raw) > 300 {
 		raw = raw[:300] + "..."
 	}
-	return goRes{Kind: "value", Canon: tlabridge.Canon(v), Raw: raw}
+	canon, err := tlabridge.ToTLA(tlabridge.Normalize(v))
+	if err != nil {
+		canon = "<not a TLA+ value: " + raw + ">" // e.g. the nil Value (defaultInitValue)
+	}
+	return goRes{Kind: "value", Canon: canon, Raw: raw}
 }
 
 func firstLine(s string) string {
@@ -473,7 +480,7 @@ func judge(c tcase, T oracleEntry, G goRes, oracle map[string]oracleEntry) verdi
 			}
 			return verdict{Class: "unjudged-tlc-refuses-record-comparison"}
 		}
-		return viol(T.ErrClass+"/no-error"+refine, "silently returns "+G.Raw)
+		return viol(T.ErrClass+"/no-error", "silently returns "+G.Raw)
 	}
 	// TLC gives a value
 	tc, perr := canonOfTLC(T.Value)
@@ -509,6 +516,15 @@ func judge(c tcase, T oracleEntry, G goRes, oracle map[string]oracleEntry) verdi
 		}
 		if perr != nil {
 			return verdict{Class: "unjudged-tlc-symbolic"}
+		}
+		if o.Name == "IsFiniteSet" && kinds[0] != "set" {
+			// TLC answers TRUE for IsFiniteSet of a tuple/record by accident of its implementation; TLA+ gives no value
+			return verdict{Class: "unjudged-tlc-lenient"}
+		}
+		for i, need := range o.Need {
+			if need == "tuple" && kinds[i] == "string" {
+				return viol("loud-failure/string-as-sequence", "fails with ErrTLAType ("+G.Msg+"): strings are sequences in TLA+ and TLC, not in the Go runtime (not one of the documented restrictions)")
+			}
 		}
 		return viol("loud-failure/"+strings.Join(kinds, "-"), "fails with ErrTLAType ("+G.Msg+") outside the documented restrictions")
 	}
@@ -757,7 +773,8 @@ func TestCheck(t *testing.T) {
 					bad = append(bad, v.What)
 				case "violation":
 					violCount[v.Key]++
-					if _, dup := viol[v.Key]; !dup {
+					// keep the smallest witness per key
+					if old, dup := viol[v.Key]; !dup || len(c.Expr) < len(old.Replay.(replay).Expr) {
 						viol[v.Key] = hres.Viol{Key: v.Key, What: v.What, Replay: replay{o.Name, c.Args, c.Expr}}
 					}
 				}
